@@ -671,6 +671,16 @@ class Event:
                 "'Data Set' parameter"
             )
 
+        path = getattr(request, "_dataset_path", None)
+        if isinstance(path, Path):
+            # STORE_RECV_CHUNKED_DATASET: the data set was written to file after
+            #   the preamble, prefix and File Meta Information
+            with open(path, "rb") as f:
+                f.seek(132 + 8)
+                group_length = int.from_bytes(f.read(4), "little")
+                f.seek(132 + 12 + group_length)
+                stream = f.read()
+
         if not include_meta:
             return stream
 
